@@ -54,18 +54,14 @@ def audit(prop):
     if not os.path.exists(os.path.join(LEAN, path)):
         return False, [], f"missing {path}"
     rc, out = sh(["lake", "env", "lean", path], cwd=LEAN)
-    thms, cur = [], None
-    text = out.replace("\n  ", " ")
+    thms = []
     import re as _re
-    for line in text.splitlines():
-        line = line.strip()
-        m = _re.match(r"^'(.+)' does not depend on any axioms", line)
-        if m:
+    # `#print axioms` wraps long lines: match over the whole output
+    for m in _re.finditer(r"'([^']+)' (does not depend on any axioms|depends on axioms: \[([^\]]*)\])", out):
+        if m.group(2).startswith("does not"):
             thms.append((m.group(1), []))
-            continue
-        m = _re.match(r"^'(.+)' depends on axioms: \[(.*)\]", line)
-        if m:
-            thms.append((m.group(1), [a.strip() for a in m.group(2).split(",") if a.strip()]))
+        else:
+            thms.append((m.group(1), [a.strip() for a in m.group(3).replace("\n", " ").split(",") if a.strip()]))
     ok = rc == 0 and len(thms) > 0 and all(set(a) <= ALLOWED_AXIOMS for _, a in thms)
     return ok, thms, out
 
